@@ -18,7 +18,7 @@ from concurrent.futures import ThreadPoolExecutor
 from ..core import Check, MachineryError, main
 from ..tlaval import seq
 
-OUT_IDS = {"f": 1, "g": 2, "@f": 3, "@g": 4}
+OUT_IDS = {"f": 1, "g": 2, "@f": 3, "@g": 4, "o": 5, "@o": 6}
 INVS = ["FilePrefix", "FileExactEachCall", "FileAtLastIteration", "LoadedKept", "MemoryAhead"]
 
 
@@ -34,7 +34,7 @@ def model_cfg(each_call, each_iter, max_stores, max_crashes, points="{1,2,3}", o
 def trace_cfg(each_call, each_iter, n_points):
     b = lambda x: "TRUE" if x else "FALSE"  # noqa: E731
     pts = "{" + ", ".join(str(i) for i in range(1, n_points + 1)) + "}"
-    s = (f"CONSTANTS Points = {pts}\n Outs = {{1, 2, 3, 4}}\n EachCall = {b(each_call)}\n EachIter = {b(each_iter)}\n"
+    s = (f"CONSTANTS Points = {pts}\n Outs = {{1, 2, 3, 4, 5, 6}}\n EachCall = {b(each_call)}\n EachIter = {b(each_iter)}\n"
          f" MaxStores = 100000\n MaxCrashes = 0\nINIT TInit\nNEXT TNext\nCONSTRAINT Reach\nPOSTCONDITION Accepted\n"
          "CHECK_DEADLOCK FALSE\n")
     for i in INVS:
@@ -160,6 +160,16 @@ def run(ck: Check):
         {"name": "doe-call-idf-failing-sample", "kind": "doe", "mode": "call", "samples": S5,
          "system": "uncoupled", "formulation": "IDF", "fail_g": [[0.5, -1.0]]},
     ]
+    configs += [
+        # an observable computed by its own discipline: it is evaluated by a new-iteration listener, i.e.
+        # AFTER the store listeners exported the value just stored (IDF: one discipline per function)
+        {"name": "doe-call-idf-observable", "kind": "doe", "mode": "call", "samples": S5[:3],
+         "system": "uncoupled_obs", "formulation": "IDF"},
+        # a run stopped by GEMSEO's own ftol/xtol criteria (max_iter not binding), restarted with the
+        # DEFAULT counter reset: the criteria look at the loaded + new entries, so the history is the same
+        {"name": "mdo-call-converged-default-reset", "kind": "mdo", "mode": "call", "max_iter": 100,
+         "restart_default_reset": True, "late_crashes": True},
+    ]
     if ck.thorough:
         configs += [
             {"name": "mdo-both", "kind": "mdo", "mode": "both", "max_iter": 8},
@@ -205,7 +215,10 @@ def run(ck: Check):
         ck.sample({"config": name, "n_discipline_executions": K, "events": t_ref["events"][:12]})
         ks = list(range(1, K + 1))
         if not ck.thorough:
-            ks = sorted(set([1, K] + rng.sample(ks, min(4 if name == "mdo-call" else 2, len(ks)))))
+            if cfg.get("late_crashes"):
+                ks = sorted(set([K, K - 1, K - 3, K - 5]) & set(ks))
+            else:
+                ks = sorted(set([1, K] + rng.sample(ks, min(4 if name == "mdo-call" else 2, len(ks)))))
         # ---- 3. kill a child in the k-th execution; compare the file with the prediction
         def crash_and_restart(k):
             out = {"k": k}
